@@ -328,6 +328,16 @@ def base_case(draw, name, max_len=8, max_src=4, steps="full", min_len=0, min_src
     if v:
         params["v"] = v
 
+    if name in ("zip", "map", "chain", "chain_from_iterable", "islice", "batched", "enumerate", "tee", "pairwise",
+                "zip_longest", "compress", "cycle", "filter", "filterfalse", "takewhile", "dropwhile", "list", "tuple") \
+            and profile in ("item", "truthy") and draw(st.integers(0, 3)) == 0:
+        # None is everybody's favourite "nothing there" marker: make sure it occurs as an ordinary item, and in
+        # the places where it matters (last item of a source, surplus item of the longest source)
+        cands = [s_ for s_ in srcs if s_.get("alias") is None and s_["items"]]
+        if cands:
+            s_ = cands[draw(st.integers(0, len(cands) - 1))]
+            pos = draw(st.sampled_from([len(s_["items"]) - 1, len(s_["items"]) - 1, draw(st.integers(0, len(s_["items"]) - 1))]))
+            s_["items"][pos] = ["n"]
     if name not in ("iter_sentinel", "dict", "starmap") and profile in ("item", "truthy", "num") and draw(st.integers(0, 5)) == 0:
         # the identical object occurs twice in a row in one source
         cands = [s_ for s_ in srcs if s_.get("alias") is None and s_["items"]]
